@@ -9,6 +9,7 @@
 package main
 
 import (
+	"fmt"
 	"go/ast"
 	"go/constant"
 	"go/parser"
@@ -559,4 +560,148 @@ func condSaysNotPositive(e ast.Expr, name string) bool {
 		}
 	}
 	return false
+}
+
+// retrydecision: GenericPolicy.Retry, statement by statement, as a Gallina decision function
+//
+//	if attempt <op> p.MaxRetry { return -1, nil }
+//	if ok, err := p.Retryable(resp, err); err != nil { return -1, err } else if !ok { return -1, nil }
+//	backoff := p.Backoff(attempt, resp)
+//	if backoff <op> p.F { backoff = p.G } ...          (any number of clamping steps, in order)
+//	return backoff, nil
+//
+// -> Definition <coq> (attempt max_retry min_wait max_wait : Z) (pr : pred_result) (bo : bres) : decision.
+// Comparison operators, the fields compared and assigned and the order of the steps are taken from
+// the source; any other statement or condition is untranslatable.
+func init() { kinds["retrydecision"] = kindRetryDecision }
+
+func kindRetryDecision(x *Ctx, it Item) {
+	what := it.File + ":" + it.Recv + "." + it.Func
+	fd := findFunc(x.File(it.File), it.Recv, it.Func)
+	if fd == nil || fd.Recv == nil || len(fd.Recv.List) != 1 || len(fd.Recv.List[0].Names) != 1 {
+		fail("%s: method not found", what)
+	}
+	recv := fd.Recv.List[0].Names[0].Name
+	ps := fd.Type.Params.List
+	if len(ps) != 3 || len(ps[0].Names) != 1 {
+		fail("%s: unexpected parameters", what)
+	}
+	attempt := ps[0].Names[0].Name
+	fieldVar := map[string]string{"MaxRetry": "max_retry", "MinWait": "min_wait", "MaxWait": "max_wait"}
+	field := func(e ast.Expr) (string, bool) {
+		sel, ok := e.(*ast.SelectorExpr)
+		if !ok {
+			return "", false
+		}
+		if id, ok := sel.X.(*ast.Ident); !ok || id.Name != recv {
+			return "", false
+		}
+		v, ok := fieldVar[sel.Sel.Name]
+		return v, ok
+	}
+	cmp := map[token.Token]string{token.LSS: "<?", token.LEQ: "<=?", token.GTR: ">?", token.GEQ: ">=?", token.EQL: "=?"}
+	isMinus1 := func(e ast.Expr) bool {
+		u, ok := e.(*ast.UnaryExpr)
+		return ok && u.Op == token.SUB && isLit(u.X, "1")
+	}
+	retIs := func(s ast.Stmt, second string) bool { // return -1, <second>
+		blk, ok := s.(*ast.BlockStmt)
+		if !ok || len(blk.List) != 1 {
+			return false
+		}
+		r, ok := blk.List[0].(*ast.ReturnStmt)
+		return ok && len(r.Results) == 2 && isMinus1(r.Results[0]) && isIdent(r.Results[1], second)
+	}
+	body := fd.Body.List
+	if len(body) < 4 {
+		fail("%s: body too short", what)
+	}
+	// 1. attempt bound
+	s1, ok := body[0].(*ast.IfStmt)
+	if !ok || s1.Init != nil || s1.Else != nil || !retIs(s1.Body, "nil") {
+		fail("%s: statement 1 is not `if %s <op> %s.MaxRetry { return -1, nil }`", what, attempt, recv)
+	}
+	c1, ok := s1.Cond.(*ast.BinaryExpr)
+	if !ok || !isIdent(c1.X, attempt) || cmp[c1.Op] == "" {
+		fail("%s: statement 1 has an unsupported condition", what)
+	}
+	f1, ok := field(c1.Y)
+	if !ok {
+		fail("%s: statement 1 does not compare with a policy field", what)
+	}
+	// 2. predicate
+	s2, ok := body[1].(*ast.IfStmt)
+	if !ok || s2.Init == nil {
+		fail("%s: statement 2 is not the predicate call", what)
+	}
+	as, ok := s2.Init.(*ast.AssignStmt)
+	if !ok || len(as.Lhs) != 2 || len(as.Rhs) != 1 {
+		fail("%s: statement 2 is not `if ok, err := %s.Retryable(...)`", what, recv)
+	}
+	okName, errName := as.Lhs[0].(*ast.Ident), as.Lhs[1].(*ast.Ident)
+	call, isCall := as.Rhs[0].(*ast.CallExpr)
+	if okName == nil || errName == nil || !isCall {
+		fail("%s: statement 2 is not `if ok, err := %s.Retryable(...)`", what, recv)
+	}
+	if sel, ok := call.Fun.(*ast.SelectorExpr); !ok || sel.Sel.Name != "Retryable" || !isIdent(sel.X, recv) || len(call.Args) != 2 {
+		fail("%s: statement 2 does not call %s.Retryable(resp, err)", what, recv)
+	}
+	c2, ok := s2.Cond.(*ast.BinaryExpr)
+	if !ok || c2.Op != token.NEQ || !isIdent(c2.X, errName.Name) || !isIdent(c2.Y, "nil") || !retIs(s2.Body, errName.Name) {
+		fail("%s: statement 2 is not `...; err != nil { return -1, err }`", what)
+	}
+	e2, ok := s2.Else.(*ast.IfStmt)
+	if !ok || e2.Init != nil || e2.Else != nil || !retIs(e2.Body, "nil") {
+		fail("%s: statement 2 lacks `else if !ok { return -1, nil }`", what)
+	}
+	if u, ok := e2.Cond.(*ast.UnaryExpr); !ok || u.Op != token.NOT || !isIdent(u.X, okName.Name) {
+		fail("%s: statement 2 lacks `else if !ok { return -1, nil }`", what)
+	}
+	// 3. backoff
+	s3, ok := body[2].(*ast.AssignStmt)
+	if !ok || len(s3.Lhs) != 1 || len(s3.Rhs) != 1 {
+		fail("%s: statement 3 is not `backoff := %s.Backoff(attempt, resp)`", what, recv)
+	}
+	bv, ok := s3.Lhs[0].(*ast.Ident)
+	bc, ok2 := s3.Rhs[0].(*ast.CallExpr)
+	if !ok || !ok2 {
+		fail("%s: statement 3 is not `backoff := %s.Backoff(attempt, resp)`", what, recv)
+	}
+	if sel, ok := bc.Fun.(*ast.SelectorExpr); !ok || sel.Sel.Name != "Backoff" || !isIdent(sel.X, recv) || len(bc.Args) != 2 || !isIdent(bc.Args[0], attempt) {
+		fail("%s: statement 3 does not call %s.Backoff(attempt, resp)", what, recv)
+	}
+	// 4.. clamping steps
+	var steps []string
+	for _, st := range body[3 : len(body)-1] {
+		is, ok := st.(*ast.IfStmt)
+		if !ok || is.Init != nil || is.Else != nil || len(is.Body.List) != 1 {
+			fail("%s: unsupported statement between the backoff call and the return", what)
+		}
+		c, ok := is.Cond.(*ast.BinaryExpr)
+		if !ok || !isIdent(c.X, bv.Name) || cmp[c.Op] == "" {
+			fail("%s: unsupported clamping condition", what)
+		}
+		fc, ok := field(c.Y)
+		a, ok2 := is.Body.List[0].(*ast.AssignStmt)
+		if !ok || !ok2 || a.Tok != token.ASSIGN || len(a.Lhs) != 1 || len(a.Rhs) != 1 || !isIdent(a.Lhs[0], bv.Name) {
+			fail("%s: unsupported clamping step", what)
+		}
+		fa, ok := field(a.Rhs[0])
+		if !ok {
+			fail("%s: clamping step does not assign a policy field", what)
+		}
+		steps = append(steps, fmt.Sprintf("    let backoff := if (backoff %s %s)%%Z then %s else backoff in", cmp[c.Op], fc, fa))
+	}
+	// last: return backoff, nil
+	last, ok := body[len(body)-1].(*ast.ReturnStmt)
+	if !ok || len(last.Results) != 2 || !isIdent(last.Results[0], bv.Name) || !isIdent(last.Results[1], "nil") {
+		fail("%s: last statement is not `return backoff, nil`", what)
+	}
+	x.Printf("From Oras Require Import Base.RetryTypes.\n(* %s, statement by statement *)\n", what)
+	x.Printf("Definition %s (attempt max_retry min_wait max_wait : Z) (pr : pred_result) (bo : bres) : decision :=\n", coqName(it))
+	x.Printf("  if (attempt %s %s)%%Z then DStop else\n  match pr with\n  | PFail => DFail\n  | PStop => DStop\n  | PRetry =>\n    match bo with\n    | BPanic => DPanic\n    | BRet backoff =>\n", cmp[c1.Op], f1)
+	for _, s := range steps {
+		x.Printf("  %s\n", s)
+	}
+	x.Printf("      DWait backoff\n    end\n  end.\n\n")
 }
